@@ -24,7 +24,7 @@ ASSUMPTIONS = [
     "Line ends are LF. Bytes-per-line of a record's index entry is only compared when the record's first line is terminated by a newline.",
     "Every record is internally consistently wrapped (all lines but the last have the record's width), as faidx requires.",
 ]
-REQUIRED_CLASSES = ["multi-line", "last-line-full", "last-line-short", "single-line", "description", "marker-character-in-description", "genome-route-3+-intervals", "interval-crosses-break", "interval-ends-at-break",
+REQUIRED_CLASSES = ["multi-line", "last-line-full", "last-line-short", "single-line", "description", "marker-character-in-description", "genome-route-3+-intervals", "supplied-index-without-final-newline", "interval-crosses-break", "interval-ends-at-break",
                     "interval-starts-at-break", "supplied-index", "library-index", "fast-path-label-order-differs", "no-final-newline"]
 BOUNDS = {"quick": "exhaustive: 1 record L<=7 W<=8 and 2 records L<=4 W<=5, every interval; 450 sampled files; one 5.6 MB file (2 read chunks of create_index) and one 16 MB file (4 read chunks)",
           "thorough": "exhaustive: N<=2 L<=7 W<=8 and N=3 L<=4 W<=4; 2500 sampled files; one 5.2 MB file"}
@@ -59,6 +59,8 @@ def layout(case):
 def classify(case):
     cl = [case["index"] + "-index"]
     nontrivial = False
+    if case["index"] == "supplied" and case.get("fai_no_final_newline"):
+        cl.append("supplied-index-without-final-newline")
     if case.get("genome_route") and len(case.get("intervals") or []) >= 3:
         cl.append("genome-route-3+-intervals")
     for name, desc, seq, w in case["records"]:
@@ -103,8 +105,9 @@ def check(case, stats=None):
         try:
             if case["index"] == "supplied":
                 with open(path + ".fai", "w") as f:
-                    for m in model:
-                        f.write(f"{m['name']}\t{m['rlen']}\t{m['offset']}\t{m['lenc']}\t{m['lenb']}\n")
+                    # (a supplied index may or may not end with a newline)
+                    f.write("\n".join(f"{m['name']}\t{m['rlen']}\t{m['offset']}\t{m['lenc']}\t{m['lenb']}" for m in model)
+                            + ("" if case.get("fai_no_final_newline") else "\n"))
             fa = bnp.open_indexed(path)
         except Exception as e:
             return [Failure(f"C17:open-raised:{case['index']}:{type(e).__name__}:{_where(e)}", {"error": repr(e)[:300]})]
@@ -215,7 +218,7 @@ def sampled_case(draw, Lmax, Wmax):
         b = draw(st.one_of(st.sampled_from([p for p in breaks if p > a] or [L]), st.integers(a + 1, L)))
         ivs.append([ri, a, b])
     case = {"records": recs, "intervals": ivs, "index": draw(st.sampled_from(["library", "supplied"])), "final_nl": draw(st.booleans()),
-            "genome_route": draw(st.booleans())}
+            "genome_route": draw(st.booleans()), "fai_no_final_newline": draw(st.booleans())}
     if n > 1:
         case["label_order"] = draw(st.permutations(list(range(n))))
     return case
